@@ -47,6 +47,9 @@ ARG_PALETTE = {
     "list": {"v": [1, 2, 3]},
     "nested": {"d": {"k": [1, {"z": 2.5}]}},
     "nonev": {"a": None, "b": True},
+    # text that LOOKS like a number / boolean / expression stays text; numbers of unusual form stay numbers
+    "numtext": {"a": "123", "b": "1.10", "c": "True", "d": "1e5", "e": "0x10", "f": "None", "g": "[1, 2]", "h": "1_000"},
+    "edge": {"a": 0, "b": 0.0, "c": False, "d": "", "e": [], "f": -0.0, "g": 1e300, "h": 2 ** 70},
 }
 
 
